@@ -55,6 +55,7 @@ pub fn bounds(tier: Tier) -> Vec<ConvBound> {
             mk(Fam::Txt, 0, &two, 4, 2, K_RELAY | K_MERGE),
             mk(Fam::Txt, 0, &two, 5, 0, 0),
             mk(Fam::Nest, 0, &two, 4, 1, K_RELAY | K_V2),
+            mk(Fam::Nest, 1, &one, 3, 0, 0),
             mk(Fam::Map, 1, &two, 4, 1, K_RELAY | K_V2),
             mk(Fam::Arr, 1, &two, 4, 1, K_RELAY | K_V2),
             mk(Fam::Rtx, 0, &two, 4, 1, K_RELAY),
